@@ -23,3 +23,17 @@ Print Assumptions C02_cost_ext.
 Theorem C02_telescoping_max : forall (r : list Z) (d m : Z), Sorted.StronglySorted Z.lt (d :: r) -> In m (d :: r) -> (d + steps (fun v : Z => v <=? m) d r)%Z = m.
 Proof. exact (@telescoping_max). Qed.
 Print Assumptions C02_telescoping_max.
+
+From NGO Require Import Sem.Sym Sem.Sat Sem.Cost Link.SumChainsSem.
+
+Theorem C02_sum_chain_cost : forall (sym_lt : Ast.sym -> Ast.sym -> Prop) (T : interp) (p ch nx : string) (gs : list string) (lv pv : string) (pr : Ast.term) (ts : list Ast.term) (cs : list Ast.lit) (line : nat), forallb Normalize.simple_lit_b cs = true -> ofresh gs pr ts cs lv -> ofresh gs pr ts cs pv -> lv <> pv -> forall (prj : string) (p0 : Z), (forall g r : list Ast.sym, octx sym_lt T gs pr ts cs p0 g r -> group_ok T p ch nx g) -> (forall g r : list Ast.sym, octx sym_lt T gs pr ts cs p0 g r -> (forall v : Ast.sym, ~ T (p, g ++ v :: nil)) -> forall d : Ast.sym, ~ T (ch, g ++ d :: nil)) -> (forall g g' r : list Ast.sym, octx sym_lt T gs pr ts cs p0 g r -> octx sym_lt T gs pr ts cs p0 g' r -> g = g') -> (exists L : list (list Ast.sym * list Ast.sym), forall g r : list Ast.sym, octx sym_lt T gs pr ts cs p0 g r -> (exists v : Ast.sym, T (p, g ++ v :: nil)) -> In (g, r) L) -> (forall (g r : list Ast.sym) (n : Ast.sym), octx sym_lt T gs pr ts cs p0 g r -> T (prj, g ++ n :: nil) <-> (exists q : Ast.sym, T (nx, g ++ q :: n :: nil))) -> forall P1 P2 : list Ast.stmt, (forall tv : list Ast.sym, cost_tuples sym_lt (obj_orig p gs lv pr ts cs line :: nil) T p0 tv -> cost_tuples sym_lt (P1 ++ P2) T p0 tv -> False) -> (forall tv : list Ast.sym, cost_tuples sym_lt (obj_step ch nx gs lv pv pr ts cs line :: obj_first_proj ch nx gs lv pr ts cs line prj :: nil) T p0 tv -> cost_tuples sym_lt (P1 ++ P2) T p0 tv -> False) -> forall c : Z, cost_at sym_lt (P1 ++ obj_orig p gs lv pr ts cs line :: P2) T p0 c <-> cost_at sym_lt (P1 ++ obj_step ch nx gs lv pv pr ts cs line :: obj_first_proj ch nx gs lv pr ts cs line prj :: P2) T p0 c.
+Proof. exact (@SumChainsSem.sum_chain_cost). Qed.
+Print Assumptions C02_sum_chain_cost.
+
+Theorem C02_sum_chain_cost_max : forall (sym_lt : Ast.sym -> Ast.sym -> Prop) (T : interp) (p ch nx : string) (gs : list string) (lv pv : string) (pr : Ast.term) (ts : list Ast.term) (cs : list Ast.lit) (line : nat), forallb Normalize.simple_lit_b cs = true -> ofresh gs pr ts cs lv -> ofresh gs pr ts cs pv -> lv <> pv -> forall (prj : string) (p0 : Z), (forall g r : list Ast.sym, octx sym_lt T gs pr ts cs p0 g r -> group_ok T p ch nx g) -> (forall g r : list Ast.sym, octx sym_lt T gs pr ts cs p0 g r -> (forall v : Ast.sym, ~ T (p, g ++ v :: nil)) -> forall d : Ast.sym, ~ T (ch, g ++ d :: nil)) -> (forall g g' r : list Ast.sym, octx sym_lt T gs pr ts cs p0 g r -> octx sym_lt T gs pr ts cs p0 g' r -> g = g') -> (exists L : list (list Ast.sym * list Ast.sym), forall g r : list Ast.sym, octx sym_lt T gs pr ts cs p0 g r -> (exists v : Ast.sym, T (p, g ++ v :: nil)) -> In (g, r) L) -> (forall (g r : list Ast.sym) (n : Ast.sym), octx sym_lt T gs pr ts cs p0 g r -> T (prj, g ++ n :: nil) <-> (exists q : Ast.sym, T (nx, g ++ q :: n :: nil))) -> forall P1 P2 : list Ast.stmt, (forall tv : list Ast.sym, cost_tuples sym_lt (neg_stmt (obj_orig p gs lv pr ts cs line) :: nil) T p0 tv -> cost_tuples sym_lt (P1 ++ P2) T p0 tv -> False) -> (forall tv : list Ast.sym, cost_tuples sym_lt (neg_stmt (obj_step ch nx gs lv pv pr ts cs line) :: neg_stmt (obj_first_proj ch nx gs lv pr ts cs line prj) :: nil) T p0 tv -> cost_tuples sym_lt (P1 ++ P2) T p0 tv -> False) -> forall c : Z, cost_at sym_lt (P1 ++ neg_stmt (obj_orig p gs lv pr ts cs line) :: P2) T p0 c <-> cost_at sym_lt (P1 ++ neg_stmt (obj_step ch nx gs lv pv pr ts cs line) :: neg_stmt (obj_first_proj ch nx gs lv pr ts cs line prj) :: P2) T p0 c.
+Proof. exact (@SumChainsSem.sum_chain_cost_max). Qed.
+Print Assumptions C02_sum_chain_cost_max.
+
+Theorem C02_projected_group_refuted : forall sym_lt : Ast.sym -> Ast.sym -> Prop, cost_at sym_lt (Refutations.b_orig :: nil) Refutations.Tb 0 3 /\ cost_at sym_lt (Refutations.b_step :: Refutations.b_first :: nil) Refutations.Tb 0 6.
+Proof. exact (@SumChainsSem.Refutations.projected_group_refuted). Qed.
+Print Assumptions C02_projected_group_refuted.
